@@ -1,11 +1,14 @@
 import TriompheModel.Proofs.MonitorBase
+import TriompheModel.Proofs.HistInit
 /-!
 # Soundness of the trace monitor, part 2: K7 (C08, copy-on-write)
 
 New facts about `step` proved here (for `makeMut` on an `Arc` or an `OffsetArc`, and `makeUnique`):
 `mmState_frame_dig` (every other slot keeps its handle and shows the same STRUCTURED contents), `mm_shared_mem` (the log
 of the redirecting branch is the old log, at most one `clone` event — exactly one iff a value was there to clone —, one
-`alloc` event; the fresh block holds the clone with the written `val`), `targetOk_writeVal`.
+`alloc` event; the fresh block holds the clone with the written `val`), `targetOk_writeVal`.  With `InitInv`
+(`Proofs/HistInit.lean`: the one slot of a sized payload seen through an initialised view is written) the value IS there:
+exactly one `clone` event, and the write target shows the written value — unconditionally.
 -/
 namespace M1
 namespace Mon
@@ -46,25 +49,22 @@ theorem cont_writeVal_self (m : Mem) (b v : Nat) : cont (writeVal m b v) b = (co
       | nil => simp [Block.content, wvC]
       | cons e r => cases e <;> simp [Block.content, wvC]
 
-/-- whatever the target of a write through `h` shows after `writeVal … v`, it is `v` -/
-theorem targetOk_writeVal (m : Mem) (b v : Nat) (h : HV) (hb : h.blk = b) :
+/-- a handle with an initialised view of at least one slot, on a block whose first slot is written: after
+`writeVal … v` the write target it shows is `v` -/
+theorem targetOk_writeVal (m : Mem) (b v : Nat) (h : HV) (hb : h.blk = b) (hei : h.ty.elemsInit = true)
+    (hvl : viewLen (writeVal m b v) h = 1) {hdr : Option Item} {rl : Option Nat} {it : Item} {r : List (Option Item)}
+    (hc : cont m b = some (hdr, rl, some it :: r)) :
     targetOk (slotObs (writeVal m b v) h) v = true := by
-  simp only [targetOk, slotObs, digObs_eq, hb, cont_writeVal_self]
-  cases cont m b with
-  | none => rfl
-  | some c =>
-    obtain ⟨hdr, rl, elems⟩ := c
-    cases hdr with
-    | some it => simp [digOf, wvC, Dig.target]
-    | none =>
-      cases elems with
-      | nil => cases h.ty.elemsInit <;> simp [digOf, wvC, Dig.target]
-      | cons e r =>
-        cases e with
-        | none =>
-          cases h.ty.elemsInit <;> cases viewLen (writeVal m b v) h <;> simp [digOf, wvC, Dig.target]
-        | some it =>
-          cases h.ty.elemsInit <;> cases viewLen (writeVal m b v) h <;> simp [digOf, wvC, Dig.target]
+  simp only [targetOk, slotObs, digObs_eq, hb, cont_writeVal_self, hc, hei, hvl]
+  cases hdr <;> simp [digOf, wvC, Dig.target]
+
+theorem cloneValue_snd {m : Mem} {b : Nat} {k : Block} {it : Item} (hk : m.blocks[b]? = some k)
+    (hel : k.elems = [some it]) : (cloneValue m b).2 = some ⟨m.nextClone, it.val⟩ := by
+  simp [cloneValue, hk, hel]
+
+theorem cont_of_block {m : Mem} {b : Nat} {k : Block} (hk : m.blocks[b]? = some k) :
+    cont m b = some (k.hdr, k.recLen, k.elems) := by
+  simp [cont, hk, Block.content]
 
 /-! ## the three copy-on-write ops in one shape, with their status -/
 
@@ -226,7 +226,7 @@ theorem k7_of_unique {pre : List (Nat × SlotObs)} {op : Op} {o : Obs} {src v : 
 
 theorem k7_of_shared {pre : List (Nat × SlotObs)} {op : Op} {o : Obs} {src v : Nat} {p q : SlotObs}
     (hop : cowSrc op = some (src, v)) (hp : lookupO pre src = some p) (hq : lookupO o.slots src = some q)
-    (hn : ownersO pre p.blk ≠ 1) (hb : q.blk ≠ p.blk) (hc : clonesOk q (o.evs.countP isCloneEv) = true)
+    (hn : ownersO pre p.blk ≠ 1) (hb : q.blk ≠ p.blk) (hc : o.evs.countP isCloneEv = 1)
     (h1 : ownersO o.slots q.blk = 1) (h2 : ownersO o.slots p.blk + 1 = ownersO pre p.blk)
     (hoth : pre.filterMap (k7Other o.slots p.blk src) = []) (ht : targetOk q v = true) :
     checkK7 pre op o = [] := by
@@ -237,7 +237,8 @@ theorem k7_of_shared {pre : List (Nat × SlotObs)} {op : Op} {o : Obs} {src v : 
 /-! ## K7 on the model -/
 
 theorem K7_mm {s : State} (hi : Inv s) {src v : Nat} {h a : HV} {g : Mem → HV → HV} {cp : Bool} {op : Op}
-    (hs : lookup s src = some h) (ha : a.blk = h.blk) (haty : a.ty = .sized)
+    (hs : lookup s src = some h) (ha : a.blk = h.blk) (haty : a.ty = .sized) (hak : a.kind = .arc)
+    (hfirst : ∃ (k : Block) (it : Item), s.mem.blocks[h.blk]? = some k ∧ k.elems = [some it])
     (hg : ∀ m x, (g m x).blk = x.blk)
     (hgv : ∀ (m m' : Mem) (x : HV), x.ty = .sized → x.kind = .arc →
       viewLen m' (g m x) = 1 ∧ (g m x).ty.elemsInit = true)
@@ -249,6 +250,9 @@ theorem K7_mm {s : State} (hi : Inv s) {src v : Nat} {h a : HV} {g : Mem → HV 
     show observeSlots (step s op).1 = _; rw [hfst]
   have hown : owners s h.blk = 1 ↔ Arc.is_unique s.mem a = true := by
     rw [is_unique_iff_loadCount, ha, hi.toInv'.loadCount_eq hs]
+  obtain ⟨kb, it0, hkb, hel0⟩ := hfirst
+  have hcv : (cloneValue s.mem a.blk).2 = some ⟨s.mem.nextClone, it0.val⟩ := by
+    rw [ha]; exact cloneValue_snd hkb hel0
   by_cases hu : Arc.is_unique s.mem a = true
   · -- sole owner: written in place
     have hmm : Arc.make_mut s.mem a cp = (s.mem, some a) := by rw [make_mut_eq]; simp [hu]
@@ -265,7 +269,9 @@ theorem K7_mm {s : State} (hi : Inv s) {src v : Nat} {h a : HV} {g : Mem → HV 
       show s.mem.log = _
       simp
     · rw [hst]
-      exact targetOk_writeVal _ _ _ _ (hg _ _)
+      obtain ⟨hv1, hv2⟩ := hgv s.mem (writeVal s.mem a.blk v) a haty hak
+      refine targetOk_writeVal _ _ _ _ (hg _ _) hv2 hv1 (hdr := kb.hdr) (rl := kb.recLen) (it := it0) (r := []) ?_
+      rw [ha, cont_of_block hkb, hel0]
   · cases cp with
     | true =>
       apply k7_skip
@@ -307,12 +313,9 @@ theorem K7_mm {s : State} (hi : Inv s) {src v : Nat} {h a : HV} {g : Mem → HV 
       · rw [ownersO_observe]; exact hsh
       · show q.blk ≠ h.blk
         rw [hqb]; omega
-      · -- exactly one clone iff the fresh block shows a value
-        rw [hevs, List.countP_append, hcc]
-        simp only [List.countP_cons, List.countP_nil, hal, Bool.false_eq_true, if_false, Nat.add_zero]
-        simp only [clonesOk, slotObs, digObs_eq, hqb, hst, hcont, hqe]
-        rw [← hst]
-        cases (cloneValue s.mem a.blk).2 <;> simp [digOf, wvC, Dig.firstShown, hqv]
+      · -- exactly one clone: the value is there (`InitInv`)
+        rw [hevs, List.countP_append, hcc, hcv]
+        simp [hal]
       · rw [hslots, ownersO_observe]
         show owners _ q.blk = 1
         rw [hqb]; exact ho2
@@ -331,14 +334,16 @@ theorem K7_mm {s : State} (hi : Inv s) {src v : Nat} {h a : HV} {g : Mem → HV 
             rw [hslots, lookupO_observe, hf1]; rfl
           rw [this, he2]
           simp [slotObs, hf2]
-      · rw [hst]
-        exact targetOk_writeVal _ _ _ _ hqb
+      · simp only [targetOk, slotObs, digObs_eq, hqb, hqe]
+        rw [hst] at hqv ⊢
+        rw [hqv, hcont, hcv]
+        simp [digOf, wvC, Dig.target]
 
 theorem viewLen_sized_arc (m : Mem) (x : HV) (hty : x.ty = .sized) (hk : x.kind = .arc) : viewLen m x = 1 := by
   simp [viewLen, hty, hk, Ty.isSlicey]
 
 /-- **K7 (C08)** on every state that satisfies the count invariant and the length typing -/
-theorem K7_sound {s : State} (hi : Inv s) (hl : LenInv s) (op : Op) :
+theorem K7_sound {s : State} (hi : Inv s) (hl : LenInv s) (hinit : InitInv s) (op : Op) :
     checkK7 (observeSlots s) op (observe s op) = [] := by
   have hbad : ∀ {op : Op}, step s op = (s, badOp) → checkK7 (observeSlots s) op (observe s op) = [] := by
     intro op e
@@ -351,13 +356,13 @@ theorem K7_sound {s : State} (hi : Inv s) (hl : LenInv s) (op : Op) :
     | none => exact hbad (by simp [step, hs])
     | some h =>
       by_cases hc : h.kind = .arc ∧ h.ty = .sized
-      · exact K7_mm hi hs rfl hc.2 (fun _ _ => rfl)
+      · exact K7_mm hi hs rfl hc.2 hc.1 (hinit.sized_written hl hs hc.2) (fun _ _ => rfl)
           (fun m m' x hty hk => ⟨viewLen_sized_arc m' x hty hk, by rw [hty]; rfl⟩) rfl (step_makeMut_arc' v cp hs hc)
       · by_cases hk : h.kind = .offset
         · obtain ⟨k, _, ho⟩ := hl.ok src h (lookup_mem hs)
           have hty : h.ty = .sized := ho.off hk
-          refine K7_mm (a := Arc.from_raw_offset s.mem h) (g := fun m x => Arc.into_raw_offset m x) hi hs rfl hty
-            (fun _ _ => rfl) ?_ rfl
+          refine K7_mm (a := Arc.from_raw_offset s.mem h) (g := fun m x => Arc.into_raw_offset m x) hi hs rfl hty rfl
+            (hinit.sized_written hl hs hty) (fun _ _ => rfl) ?_ rfl
             (step_makeMut_offset' v cp hs hk)
           intro m m' x hx _
           constructor
@@ -370,7 +375,7 @@ theorem K7_sound {s : State} (hi : Inv s) (hl : LenInv s) (op : Op) :
     | none => exact hbad (by simp [step, hs])
     | some h =>
       by_cases hc : h.kind = .arc ∧ h.ty = .sized
-      · exact K7_mm hi hs rfl hc.2 (fun _ _ => rfl)
+      · exact K7_mm hi hs rfl hc.2 hc.1 (hinit.sized_written hl hs hc.2) (fun _ _ => rfl)
           (fun m m' x hty hk => ⟨viewLen_sized_arc m' x hty hk, by rw [hty]; rfl⟩) rfl (step_makeUnique_arc' v cp hs hc)
       · exact hbad (by simp [step, hs, hc])
   | _ => exact k7_none rfl
